@@ -587,8 +587,10 @@ Proof.
   destruct (iter_nat (Pos.to_nat (fuel sc')) (loop_step sc') _) as [[[w' n'] tr']|[[w' n'] tr']] eqn:E2; [cbn; discriminate|].
   intros _ _. destruct I1 as [I1 F1]. destruct I2 as [I2 F2].
   unfold sim_end. rewrite !sim_end_eq. cbn [app r_trace].
-  destruct (sim_loop _ _ _ w0 w0' 0 0 _ _ _ _ _ _ _ _ (Nat.le_refl _) HB HR
-              ltac:(rewrite !items_snoc, !others_app, Ho; reflexivity) E1 E2) as [O R].
-  exists w, n, tr, w', n', tr'. repeat split; assumption.
+  assert (Ho0 : others (items (tr0 ++ [{| e_kind := KBoot; e_time := 0; e_items := [ISample 0 (mask sc w0)] |}])) =
+                others (items (tr0' ++ [{| e_kind := KBoot; e_time := 0; e_items := [ISample 0 (mask sc' w0')] |}])))
+    by (rewrite !items_snoc, !others_app, Ho; reflexivity).
+  destruct (sim_loop _ _ _ w0 w0' 0 0 _ _ _ _ _ _ _ _ (Nat.le_refl _) HB HR Ho0 E1 E2) as [O R].
+  exists w, n, tr, w', n', tr'. split; [exact I1|split; [exact I2|split; [exact F1|split; [exact F2|split; [exact R|split; [exact O|split; reflexivity]]]]]].
 Qed.
 End Silent.
